@@ -11,6 +11,7 @@ EXPLANATION = (
     "(R4) every static/thread-local of the workspace is in the audited table with its reset point; (R5) values drawn from the "
     "never-reset identity counters never key a hashed collection that is iterated (field/closure-sensitive taint). "
     '(R4 also: the reset point of the global event buffer replaces or empties every one of its fields.) '
+    '(R1 also: the global RNG is installed only after the simulation lock was obtained.) '
     "Decides these necessary conditions only; not equality of two observable traces.")
 ASSUMPTIONS = ["tokio's scheduler is deterministic given rng_seed and a current-thread runtime", "StdRng is deterministic given its seed"]
 
